@@ -2095,13 +2095,33 @@ func runDelegationCycle(c *Ctx, r *Rep) {
 					}
 					return true
 				})
-				passthrough := func(e ast.Expr) bool {
+				// handed on unchanged: the caller's own receiver or parameter, a constant — or either of them in another
+				// representation of the same value (a type conversion, big.NewInt(x), x.Int64()): Int.divMod handing
+				// big.NewInt(int64(a)) to BigInt.divMod, which hands Int(a.Int64()) back, makes no more progress than
+				// handing a itself
+				var passthrough func(e ast.Expr) bool
+				passthrough = func(e ast.Expr) bool {
 					e = unparen(e)
 					if tv, ok := info.Types[e]; ok && (tv.Value != nil || tv.IsNil()) {
 						return true
 					}
 					if id, ok := e.(*ast.Ident); ok {
 						return own[info.Uses[id]]
+					}
+					if call, ok := e.(*ast.CallExpr); ok {
+						if tv, ok := info.Types[call.Fun]; ok && tv.IsType() && len(call.Args) == 1 {
+							return passthrough(call.Args[0])
+						}
+						if cal := Callee(info, call); cal != nil && cal.Pkg() != nil && cal.Pkg().Path() == "math/big" {
+							switch cal.Name() {
+							case "NewInt", "NewFloat":
+								return len(call.Args) == 1 && passthrough(call.Args[0])
+							case "Int64", "Uint64":
+								if sel, ok := unparen(call.Fun).(*ast.SelectorExpr); ok {
+									return passthrough(sel.X)
+								}
+							}
+						}
 					}
 					return false
 				}
